@@ -273,4 +273,39 @@ def run(ck):
     impl2, mod2, ic2 = asmk.run_full(harness, model, kc)
     ck.evaluations += len(kc)
     asmk.k_check_full(ck, kc, impl2, mod2, ic2)
+    # the real process, with a root file whose NAME is not valid UTF-8 (any name the platform allows can be given on the
+    # command line): the diagnostic still comes, with the same line and column, for read-time and link-time faults
+    import subprocess, tempfile, shutil
+    az = build_az65_bin()
+    nproc = 0
+    for c in cases:
+        if nproc >= (120 if thorough else 30):
+            break
+        if any(not p.startswith("/w/") for p in c["files"]):
+            continue
+        nproc += 1
+        d = tempfile.mkdtemp(prefix="az65_c14_")
+        try:
+            bd = d.encode()
+            rootname = b"ma\xffin\xc3.asm"
+            for p, t in c["files"].items():
+                rel = p[3:].encode()
+                if rel == b"main.asm":
+                    rel = rootname
+                os.makedirs(os.path.dirname(os.path.join(bd, rel)), exist_ok=True)
+                open(os.path.join(bd, rel), "wb").write(t.encode("utf8"))
+            pr = subprocess.run([az.encode(), c["arch"].encode(), rootname], cwd=bd, stdout=subprocess.PIPE, stderr=subprocess.PIPE, timeout=60)
+            ck.evaluations += 1
+            ck.count("process-odd-name:rc=%s" % pr.returncode)
+            err = pr.stderr.decode("utf8", "replace")
+            m = re.search(r"^[^\n:]*:(\d+):(\d+):", err.split("\n\n", 1)[-1], re.M)
+            pos = (int(m.group(1)), int(m.group(2))) if m else None
+            if pr.returncode != 1 or "panicked" in err or pos not in c["accept"]:
+                ck.violation("%s fault in %s, root file named %r: the process exits %s and reports %s (expected exit 1 and %s): %r" % (
+                    c["kind"], c["target"], rootname, pr.returncode, pos, c["accept"], err[:160]),
+                    {"mode": "cli", "argv": ["az65", c["arch"], repr(rootname)], "files": c["files"], "root_renamed_to_hex": rootname.hex(),
+                     "expected": "exit 1, diagnostic at %s" % (c["accept"],)})
+                break
+        finally:
+            shutil.rmtree(d, ignore_errors=True)
     return ck
